@@ -5,6 +5,7 @@
 #include "ref/ref.h"
 #include "cq_decl.h"
 #include <stdio.h>
+#include <unistd.h>
 #include <stdlib.h>
 #include <string.h>
 #include <zlib.h>
@@ -296,9 +297,37 @@ static void c14a_large(void) {
     }
 }
 
+/* ---- first use: every entry point as the FIRST library call of a fresh process (tables and dispatch pointers are built lazily) ------------- */
+/* the harness re-executes itself: `hash --firstuse <entry> <length>` performs exactly one library call and prints its result */
+static int firstuse_child(int entry, size_t n) {
+    static uint8_t msg[80]; for (size_t i = 0; i < sizeof msg; i++) msg[i] = (uint8_t)(i * 29 + 7);
+    switch (entry) {
+    case 0: printf("%08x\n", carquet_crc32(msg, n)); break;
+    case 1: printf("%08x\n", carquet_crc32_update(0, msg, n)); break;
+    case 2: printf("%08x\n", carquet_crc32_update(0x1234abcdu, msg, n)); break;
+    case 3: printf("%016llx\n", (unsigned long long)carquet_xxhash64(msg, n, 0)); break;
+    case 4: printf("%016llx\n", (unsigned long long)carquet_xxhash64(msg, n, 0x9e3779b97f4a7c15ull)); break;
+    default: { carquet_bloom_filter_t* f = carquet_bloom_filter_create(64); if (!f) { printf("create-failed\n"); break; } carquet_bloom_filter_insert_bytes(f, msg, n); printf("%d%d\n", carquet_bloom_filter_check_bytes(f, msg, n) ? 1 : 0, carquet_bloom_filter_check_bytes(f, msg + 1, n + 1) ? 1 : 0);
+        const uint8_t* d = carquet_bloom_filter_data(f); uint64_t h = 0; for (size_t i = 0; i < 64; i++) h = h * 1099511628211ull + d[i]; printf("%016llx\n", (unsigned long long)h); carquet_bloom_filter_destroy(f); break; }
+    }
+    return 0;
+}
+static void firstuse_stage(int lo, int hi, const char* self) {
+    mc_stage("first-use.every-entry-point-as-the-first-call-of-a-process");
+    static const size_t LN[] = { 0, 1, 3, 7, 8, 9, 31, 32, 33, 64 }; static const char* EN[] = { "crc32", "crc32_update(0,..)", "crc32_update(seed,..)", "xxhash64(seed 0)", "xxhash64(seed)", "bloom insert/check" };
+    for (int e = lo; e <= hi; e++) for (int li = 0; li < 10; li++) {
+        if (!mc_next()) continue;
+        size_t n = LN[li]; mc_desc("firstuse:%s;n=%zu", EN[e], n); mc_case_key(mc_mix(0xf1a5, ((uint64_t)e << 8) | (uint64_t)li)); mc_nontrivial(); mc_feature("first-use");
+        char cmd[512]; snprintf(cmd, sizeof cmd, "%s --firstuse %d %zu 2>&1", self, e, n); FILE* p = popen(cmd, "r"); char fresh[160] = ""; size_t k = p ? fread(fresh, 1, sizeof fresh - 1, p) : 0; fresh[k] = 0; int rc = p ? pclose(p) : -1;
+        /* the same call in this (long-running, warmed-up) process, through the same code */
+        char warm[160]; { int pfd[2]; if (pipe(pfd)) mc_harness_error("pipe"); fflush(stdout); int so = dup(1); dup2(pfd[1], 1); firstuse_child(e, n); fflush(stdout); dup2(so, 1); close(so); close(pfd[1]); ssize_t w = read(pfd[0], warm, sizeof warm - 1); close(pfd[0]); warm[w > 0 ? w : 0] = 0; }
+        if (rc != 0 || strcmp(fresh, warm)) { char key[96]; snprintf(key, sizeof key, "first-use.%s", e <= 2 ? "crc32" : e <= 4 ? "xxhash64" : "bloom"); mc_fail(key, "%s, %zu bytes: as the first library call of a process it gives [%s] (exit status %d), later in a process [%s]", EN[e], n, fresh, rc, warm); }
+    }
+}
+static char g_self[512];
 static void enumerate(void) {
     mc_arena_init(&A, 8192);
-    if (!strcmp(mc_mode(), "c14a")) { c14a(); c14a_large(); return; }
+    if (!strcmp(mc_mode(), "c14a")) { c14a(); c14a_large(); firstuse_stage(0, 2, g_self); return; }
     mc_rule("C20: XXH64 vs a reference written from the XXH64 specification: every length 0..100 (300 thorough) x {zero, ones, every single-bit message, tagged} x 5 seeds x alignment 0..7 (guard-paged). "
             "Bloom filter: creation sizes (rounding, zero, all-absent), every subset of a 12-value pool per type x filter sizes {1,2,3,8} blocks: members probe true, bit array identical to the Parquet split-block "
             "algorithm (block = ((h>>32)*blocks)>>32, salted bits from the low word, XXH64 seed 0 of the plain encoding), write->read->same, merge contains the union; raw-hash block selection over 4096 spread hashes x 6 sizes. "
@@ -307,5 +336,10 @@ static void enumerate(void) {
     c20_xxh();
     c20_bloom();
     c20_large();
+    firstuse_stage(3, 5, g_self);
 }
-int main(int argc, char** argv) { return mc_main(argc, argv, "hash", enumerate); }
+int main(int argc, char** argv) {
+    if (argc == 4 && !strcmp(argv[1], "--firstuse")) return firstuse_child(atoi(argv[2]), (size_t)atol(argv[3]));
+    if (readlink("/proc/self/exe", g_self, sizeof g_self - 1) <= 0) snprintf(g_self, sizeof g_self, "%s", argv[0]);
+    return mc_main(argc, argv, "hash", enumerate);
+}
